@@ -137,3 +137,17 @@ package dst
 //@ trusted
 //@ attr params = n
 //@ modifies nothing
+
+// ---------------------------------------------------------------------------------------------
+// Decorations() called through the node interfaces: every implementing method only reads its node
+// (the machinery checks that on each of them; what the result is, is decided per type elsewhere).
+//@ func (n Node) Decorations
+//@ modifies nothing
+//@ func (n Expr) Decorations
+//@ modifies nothing
+//@ func (n Stmt) Decorations
+//@ modifies nothing
+//@ func (n Decl) Decorations
+//@ modifies nothing
+//@ func (n Spec) Decorations
+//@ modifies nothing
